@@ -1,54 +1,148 @@
 (* C17 - Audio playback delivers every sample once, in order, and always shuts down.
    Theorems about EVERY reachable state of the interleaving model (Model.v): every schedule, every
-   control script, any number of players, any audio length. *)
+   control script (play / pause / resume / stop / close in any order, repeated close, play after
+   close), any number of players, any audio length, wait true or false. *)
 From Coq Require Import List Bool Arith ZArith.
-From AL Require Import C17.Model C17.Inv C17.Spec C17.Proofs C17.Proofs_Live.
+From AL Require Import C17.Model C17.Inv C17.Spec C17.Measure C17.Proofs_Total C17.Proofs_Chunks.
 Import ListNotations.
 
 (* each lock has at most one holder: the threads whose program counter is inside a critical section
-   of a lock are exactly its holder *)
+   of a lock are exactly its holder (hence two threads are never inside the same section) *)
 Theorem C17_mutex : forall s, reachable s -> mutex_at s.
-Proof. exact (fun s H => mutex_of_inv s (reachable_inv s H)). Qed.
+Proof. exact mutex_reach. Qed.
 Print Assumptions C17_mutex.
 
-(* what a device stream received is a prefix of the chunks of its audio: nothing lost, duplicated,
-   reordered (prem = the chunks still to come) *)
+(* what a device stream received, followed by the chunks still to come, is the audio: nothing is
+   lost, duplicated or reordered, whatever the interleaving and the pause/play/stop calls *)
 Theorem C17_written_prefix : forall s i p, reachable s -> get_player s i = Some p ->
   pwritten p ++ prem p = paudio p.
-Proof. exact (fun s i p H => written_prefix_inv s i p (reachable_inv s H)). Qed.
+Proof. exact written_prefix_reach. Qed.
 Print Assumptions C17_written_prefix.
 
-(* a player that finished without having been told to halt delivered everything *)
+(* a player that has finished without having been told to halt has delivered everything *)
 Theorem C17_written_complete : forall s i p, reachable s -> get_player s i = Some p ->
   ppc_ p = PDone -> phalting p = false -> pwritten p = paudio p.
-Proof. exact (fun s i p H => written_complete_inv s i p (reachable_inv s H)). Qed.
+Proof. exact written_complete_reach. Qed.
 Print Assumptions C17_written_complete.
 
-(* once a close() has returned: all streams closed, nobody alive, terminated exactly once, play raises *)
+(* "promptly": after thread.stop() (from the script or from close with wait = false) set the halting
+   flag, at most one more chunk is written to the device (pafter counts those chunks) *)
+Theorem C17_stop_is_prompt : forall s i p, reachable s -> get_player s i = Some p -> pafter p <= 1.
+Proof. exact after_halt_reach. Qed.
+Print Assumptions C17_stop_is_prompt.
+
+(* the same against the control script: stream i receives a prefix of the chunks of the i-th play
+   command issued before the first close (expected_audio), all of them when it finishes un-halted *)
+Theorem C17_delivery : forall wait script sched i p,
+  get_player (exec (init wait script) sched) i = Some p ->
+  exists a, nth_error (expected_audio script) i = Some a
+            /\ pwritten p ++ prem p = a
+            /\ (ppc_ p = PDone -> phalting p = false -> pwritten p = a).
+Proof. exact delivery_reach. Qed.
+Print Assumptions C17_delivery.
+
+(* every chunk has exactly n samples; the chunks concatenate to the audio + zero padding *)
+Theorem C17_chunk_shape : forall n xs, 0 < n -> chunks_spec n xs (chunkify n xs).
+Proof. exact chunk_shape_all. Qed.
+Print Assumptions C17_chunk_shape.
+
+(* once a close() has returned: every stream closed, no player alive, backend terminated exactly
+   once, manager._threads empty, and a later play raises without creating a player *)
 Theorem C17_after_close : forall s, reachable s -> close_returned s -> after_close_at s.
-Proof. exact (fun s H => after_close_inv s (reachable_inv s H)). Qed.
+Proof. exact after_close_reach. Qed.
 Print Assumptions C17_after_close.
 
 Theorem C17_terminate_once : forall s, reachable s -> sterminated s <= 1.
-Proof. exact (fun s H => terminate_once_inv s (reachable_inv s H)). Qed.
+Proof. exact terminate_once_reach. Qed.
 Print Assumptions C17_terminate_once.
 
 (* the two error branches of the code are dead: list.remove never raises, the assert never fails *)
 Theorem C17_remove_never_raises : forall s i p, reachable s -> get_player s i = Some p ->
   ppc_ p = PFinRemove -> In i (sthreads s).
-Proof. exact (fun s i p H => remove_never_raises_inv s i p (reachable_inv s H)). Qed.
+Proof. exact remove_never_raises_reach. Qed.
 Print Assumptions C17_remove_never_raises.
 
 Theorem C17_assert_never_fails : forall s, reachable s -> smpc s <> MCloseRelHFail.
-Proof. exact (fun s H => assert_never_fails_inv s (reachable_inv s H)). Qed.
+Proof. exact assert_never_fails_reach. Qed.
 Print Assumptions C17_assert_never_fails.
 
 (* deadlock freedom: a reachable state in which no thread can move is a state in which the control
    script is over (every call, in particular every close, has returned) *)
 Theorem C17_no_stuck_state : forall s, reachable s -> stuck s -> script_done s.
-Proof. exact (fun s H => no_stuck_inv s (reachable_inv s H)). Qed.
+Proof. exact no_stuck_reach. Qed.
 Print Assumptions C17_no_stuck_state.
 
 Theorem C17_close_not_stuck : forall s, reachable s -> in_close s -> exists tid, step s tid <> None.
-Proof. exact (fun s H => close_not_stuck_inv s (reachable_inv s H)). Qed.
+Proof. exact close_not_stuck_reach. Qed.
 Print Assumptions C17_close_not_stuck.
+
+(* termination: the measure (chunks left, pc ranks, script cost, list lengths) strictly decreases *)
+Theorem C17_measure_decreases : forall s t s', reachable s -> step s t = Some s' -> measure s' < measure s.
+Proof. exact measure_decreases_reach. Qed.
+Print Assumptions C17_measure_decreases.
+
+(* liveness as total correctness: from every reachable state every schedule is finite (at most
+   `measure s` steps), every schedule that cannot be extended ends with the control script over
+   (so close has returned), and such a schedule exists.  No fairness assumption. *)
+Theorem C17_close_returns : forall s, reachable s ->
+  (forall sched, valid_sched s sched -> length sched <= measure s)
+  /\ (forall sched, valid_sched s sched -> stuck (exec s sched) -> script_done (exec s sched))
+  /\ (exists sched, valid_sched s sched /\ stuck (exec s sched)).
+Proof. exact close_returns_reach. Qed.
+Print Assumptions C17_close_returns.
+
+(* ---- non-vacuity: concrete reachable states satisfying the hypotheses of the theorems above *)
+Definition ex_script : list cmd := [CPlay 2 [1; 2; 3]%Z; CPause 0; CClose; CPlay 2 [5]%Z].
+Definition round_robin (n : nat) : list nat := concat (repeat [0; 1] n).
+
+(* wait = true and a paused player: close resumes it, waits for all audio, returns; afterwards the
+   stream is closed, the player is dead and complete, terminate was called once, the late play raised *)
+Example C17_nonvacuous_close_returned :
+  let s := exec (init true ex_script) (round_robin 60) in
+  reachable s /\ close_returned s /\ script_done s /\ stuck s
+  /\ (exists p, get_player s 0 = Some p /\ ppc_ p = PDone /\ phalting p = false
+                /\ pwritten p = [[1; 2]; [3; 0]]%Z)
+  /\ sterminated s = 1 /\ length (splayers s) = 1
+  /\ rev (strace s) = [EOpen 0; EWrite 0 [1; 2]%Z; EWrite 0 [3; 0]%Z; EStopS 0; EStartS 0; ECloseS 0;
+                       ETerminate; ECloseRet [(false, false)]; EPlayRaise].
+Proof.
+  cbv zeta. split; [exists true, ex_script, (round_robin 60); reflexivity|].
+  split; [split; vm_compute; reflexivity|].
+  split; [vm_compute; reflexivity|].
+  split; [apply enabled_nil_stuck; vm_compute; reflexivity|].
+  split; [eexists; split; [vm_compute; reflexivity|repeat split; vm_compute; reflexivity]|].
+  repeat split; vm_compute; reflexivity.
+Qed.
+Print Assumptions C17_nonvacuous_close_returned.
+
+(* wait = false: the paused player is stopped (halting), it is woken up and leaves after one chunk *)
+Example C17_nonvacuous_stop :
+  let s := exec (init false ex_script) (repeat 0 30 ++ repeat 1 30 ++ repeat 0 30) in
+  reachable s /\ close_returned s /\ stuck s
+  /\ (exists p, get_player s 0 = Some p /\ ppc_ p = PDone /\ phalting p = true
+                /\ pwritten p = [[1; 2]]%Z /\ prem p = [[3; 0]]%Z /\ pafter p = 1).
+Proof.
+  cbv zeta. split; [exists false, ex_script, (repeat 0 30 ++ repeat 1 30 ++ repeat 0 30); reflexivity|].
+  split; [split; vm_compute; reflexivity|].
+  split; [apply enabled_nil_stuck; vm_compute; reflexivity|].
+  eexists; split; [vm_compute; reflexivity|repeat split; vm_compute; reflexivity].
+Qed.
+Print Assumptions C17_nonvacuous_stop.
+
+(* contention: a reachable state inside close in which the main thread is blocked on manager.lock,
+   held by a player inside thread_finished (which is enabled) *)
+Example C17_nonvacuous_contention :
+  let s := exec (init false [CPlay 2 [1; 2]%Z; CClose]) ([0;0;0;0;0;0;0] ++ [1;1;1;1;1;1;1;1] ++ [0]) in
+  reachable s /\ in_close s /\ smlock s = Some 1 /\ in_mlock s 1 /\ step s 0 = None /\ enabled s = [1].
+Proof.
+  cbv zeta. split; [eexists _, _, _; reflexivity|].
+  split; [left; vm_compute; reflexivity|].
+  split; [vm_compute; reflexivity|].
+  split; [eexists; split; vm_compute; reflexivity|].
+  split; vm_compute; reflexivity.
+Qed.
+Print Assumptions C17_nonvacuous_contention.
+
+Example C17_nonvacuous_chunks : chunkify 2 [1; 2; 3]%Z = [[1; 2]; [3; 0]]%Z /\ pad_len 2 3 = 1.
+Proof. split; reflexivity. Qed.
+Print Assumptions C17_nonvacuous_chunks.
